@@ -511,7 +511,7 @@ def go_coverage(lines, files=(), max_lines=20000, cwd=None):
         rc, out = sh(["go", "tool", "covdata", "func", "-i=" + d], env=GOENV, timeout=300)
         funcs, tot = {}, None
         for l in out.splitlines():
-            m = re.match(r"^\S*/(pkg/\w+/)?(\w+\.go):\d+:\s+(\S+)\s+([\d.]+)%", l)
+            m = re.match(r"^github\.com/openconfig/goyang/(pkg/\w+/)?(\w+\.go):\d+:\s+(\S+)\s+([\d.]+)%", l)
             if m and (not files or m.group(2) in files) and "verif_hooks" not in m.group(2):
                 funcs[m.group(2) + ":" + m.group(3)] = float(m.group(4))
         vals = list(funcs.values())
